@@ -552,6 +552,16 @@ def gen_cases(rng, tier, budget):
               "S 1 s7:7:i A,0,5 H,I T,7,0,5:1500000:2:2:2 U H,- T,7,0,e X,0,e"]
     cases += ["S 1 s7:7:i A,0,5 H,I T,7,0,5:100:1:1:1 X,0,e U H,- B P,1", "S 1 s7:7:i A,0,5 H,I T,7,1,5:100:1:1:1 X,0,e U H,- B X,0,e",
               "S 1 s7:7:i A,0,5 H,I T,7,0,5:100:1:1:1 X,0,5:300:3:3:3 U", "S 1 s7:7:i A,0,5 H,I T,7,0,5:100:1:1:1 X,0,e A,0,6 U H,- T,7,0,6:5:5:5:5"]
+    # one counter wraps (its true total reaches 2^64) while the other three go on: only that counter is outside the domain
+    big = 2 ** 64 - 1
+    for q in range(4):
+        for typ in "ip":
+            a = [10, 20, 5, 6]; b = [30, 40, 7, 8]; c = [50, 60, 9, 11]; d = [70, 80, 12, 13]
+            a[q] = big; b[q] = 7; c[q] = 9
+            rd = lambda v: "5:%d:%d:%d:%d" % tuple(v)
+            cases.append("S 1 s7:7:%s A,0,5 T,7,0,%s T,7,0,%s T,7,0,%s X,0,%s" % (typ, rd(a), rd(b), rd(c), rd(d)))
+            cases.append("S 1 s7:7:%s A,0,5 T,7,0,%s T,7,1,%s B R,0,5 T,7,0,%s X,0,e" % (typ, rd(a), rd(b), rd(c)))
+            cases.append("S 1 s7:7:%s A,0,5 T,7,0,%s X,0,%s A,0,5 T,7,0,%s T,7,0,%s X,0,%s" % (typ, rd(a), rd(b), rd(c), rd(d), rd(d)))
     # a restart while an Interim is unanswered
     cases += ["S 1 s7:7:i A,0,5 T,7,0,5:7:1:1:1 H,I T,7,0,5:100:1:1:1 H,- B R,0,5 X,0,e",
               "S 1 s7:7:i A,0,5 H,I T,7,0,5:100:1:1:1 H,- B R,0,5 T,7,0,5:3:1:1:1 X,0,e"]
@@ -650,15 +660,16 @@ def classify(case, impl, model):
                      "hypothesis excuses it (verdict bits brk stp mono snt ord, excuses W/P/D): %s" % parts(impl)[2])
     names = ["a second Start inside one bracket", "a Stop that answers no open accounting (or a second Stop)",
              "reported counters went below the last acknowledged report",
-             "reported counters went below an earlier report of the bracket (sent, not acknowledged)",
+             "input octets went below an earlier report of the bracket", "output octets went below an earlier report of the bracket",
+             "input packets went below an earlier report of the bracket", "output packets went below an earlier report of the bracket",
              "calls outside a bracket (Interim/Stop with no Start and no restore before, or a Start inside a bracket)"]
     bad = []
     for tok in iv.split():
         sid, _, bits = tok.partition("=")
-        for b, nm in zip(bits[:5], names):
+        for b, nm in zip(bits[:8], names):
             if b == "0":
                 bad.append("%s: %s" % (sid, nm))
-    mbad = "0" in "".join(t.partition("=")[2][:5] for t in mv.split())
+    mbad = "0" in "".join(t.partition("=")[2][:8] for t in mv.split())
     diff = ""
     if ic != mc:
         ig, mg = ic.split("] "), mc.split("] ")
@@ -676,6 +687,16 @@ def classify(case, impl, model):
         return ("P" if broken else "G"), txt
     if not ic.startswith("["):
         return "G", "harness did not complete the history (panic / hang / bad case): impl=%r model=%r" % (impl[:200], model[:200])
+    # a bit that is 0 in the implementation where the model (theorem) says 1 is a violation of the property by itself
+    worse = []
+    for ti, tm in zip(iv.split(), mv.split()):
+        sid, _, bi = ti.partition("=")
+        _, _, bm = tm.partition("=")
+        for q, (x, y) in enumerate(zip(bi[:8], bm[:8])):
+            if x == "0" and y == "1":
+                worse.append("%s: %s" % (sid, names[q]))
+    if worse:
+        return "P", "accounting stream violates the property (" + "; ".join(sorted(set(worse))) + ")" + ("; " + diff if diff else "")
     if bad and not mbad:
         return "P", "accounting stream violates the property (" + "; ".join(sorted(set(bad))) + ")" + (
             "; " + diff if diff else "")
@@ -823,9 +844,9 @@ def distribution(cases, impl):
             elif tok[0] == "I":
                 d["calls"]["I_ok" if tok.endswith(":k") else "I_fail"] += 1
         for x in verd.split():
-            bits, exc = x.partition("=")[2][:5], x.partition("=")[2][5:]
+            bits, exc = x.partition("=")[2][:8], x.partition("=")[2][8:]
             d["verdict_vectors"] = d.get("verdict_vectors", 0) + 1
-            for nm, bt in zip(("brk", "stp", "mono", "snt", "ord"), bits):
+            for nm, bt in zip(("brk", "stp", "mono", "snt_in_octets", "snt_out_octets", "snt_in_packets", "snt_out_packets", "ord"), bits):
                 if bt == "0":
                     # excuse: P = dropped by an orphan prune (known finding), D = a Start was held back (known finding),
                     # otherwise W = a uint64 cumulative wrapped (the model marks anything else UNEXCUSED = VIOLATION)
